@@ -15,6 +15,9 @@ from . import sets as S
 SYSTEM = {"\\Seen", "\\Answered", "\\Flagged", "\\Deleted", "\\Draft"}
 
 
+SYSTEM_FLAGS = {x.lower(): x for x in ("\\Seen", "\\Answered", "\\Flagged", "\\Deleted", "\\Draft")}
+
+
 def norm_flags(flags) -> frozenset:
     """Flags as compared by the oracles: drop \\Recent and the derived `unseen`."""
     out = set()
@@ -22,7 +25,7 @@ def norm_flags(flags) -> frozenset:
         f = str(f)
         if f.lower() == "\\recent" or f == "unseen":
             continue
-        out.add(f)
+        out.add(SYSTEM_FLAGS.get(f.lower(), f))  # system flag names are case-insensitive (RFC 3501 section 9: flag names are atoms compared ...)
     return frozenset(out)
 
 
